@@ -59,6 +59,7 @@ func (fc *FnCtx) Generate() (err error) {
 	if len(fn.Blocks) == 0 {
 		return fmt.Errorf("%s has no body", fc.name)
 	}
+	fc.installHeapNamer()
 	fc.buildPosText()
 	fc.indexDebugRefs()
 	fc.analyseCFG()
@@ -255,6 +256,17 @@ func (fc *FnCtx) analyseEscapes() {
 					fc.nalloc++
 					fc.allocIDs[x] = fc.nalloc
 					fc.unescaped[x] = !fc.escapes(x, map[ssa.Value]bool{})
+				}
+			case *ssa.Call:
+				if con := fc.eng.cs.Funcs[fc.calleeName(x.Common())]; con != nil {
+					for _, en := range con.Ensures {
+						if strings.Contains(en.Text, "fresh(") {
+							fc.nalloc++
+							fc.allocIDs[x] = fc.nalloc
+							fc.unescaped[x] = false
+							break
+						}
+					}
 				}
 			}
 		}
@@ -460,11 +472,16 @@ func (fc *FnCtx) processBlock(b *ssa.BasicBlock) {
 		fc.enterLoop(li)
 	}
 
-	for _, in := range b.Instrs {
+	for idx, in := range b.Instrs {
 		if _, ok := in.(*ssa.Phi); ok {
 			continue
 		}
+		fc.curIdx = idx
+		fc.curInstr = in
 		fc.exec(in)
+		if v, ok := in.(ssa.Value); ok {
+			fc.nameVal(v)
+		}
 	}
 	fc.exitHeap[b] = fc.heap
 	fc.exitGhost[b] = fc.ghost
@@ -581,7 +598,9 @@ func (fc *FnCtx) enterLoop(li *loopInfo) {
 		env.beforeGhost = li.preGhost
 		for i, inv := range li.con.Invariants {
 			t := fc.evalBool(inv.E, env)
-			fc.oblige("inv-init", fmt.Sprintf("%s.%d", loopName, i+1), t, inv.Props, "invariant holds on entry: "+inv.Text, token.NoPos)
+			for j, g := range splitGoal(t) {
+				fc.oblige("inv-init", fmt.Sprintf("%s.%d.%d", loopName, i+1, j+1), g, inv.Props, "invariant holds on entry: "+inv.Text, token.NoPos)
+			}
 		}
 	}
 	// 2. havoc what the loop modifies
@@ -669,7 +688,9 @@ func (fc *FnCtx) closeLoop(li *loopInfo, latch *ssa.BasicBlock) {
 	fc.curReach = reach
 	for i, inv := range li.con.Invariants {
 		t := fc.evalBool(inv.E, env)
-		fc.oblige("inv-pres", fmt.Sprintf("%s.%d", loopName, i+1), t, inv.Props, "invariant preserved: "+inv.Text, token.NoPos)
+		for j, g := range splitGoal(t) {
+			fc.oblige("inv-pres", fmt.Sprintf("%s.%d.%d", loopName, i+1, j+1), g, inv.Props, "invariant preserved: "+inv.Text, token.NoPos)
+		}
 	}
 	if li.con.Decreases != nil {
 		v := fc.evalExpr(li.con.Decreases.E, env)
@@ -732,7 +753,16 @@ func (fc *FnCtx) computeLoopMods(li *loopInfo) {
 			li.modRegs["ghost."+at.Ghost] = true
 		}
 	}
-	li.modRegs["ghost.held"] = true
+	for b := range li.body {
+		for _, in := range b.Instrs {
+			if c, ok := in.(ssa.CallInstruction); ok {
+				n := fc.calleeName(c.Common())
+				if n == "(*sync.Mutex).Lock" || n == "(*sync.Mutex).Unlock" {
+					li.modRegs["ghost.held"] = true
+				}
+			}
+		}
+	}
 }
 
 func (fc *FnCtx) callMods(c *ssa.CallCommon, li *loopInfo) {
@@ -875,4 +905,80 @@ func (e *Engine) regionsOfType(t types.Type) []string {
 
 func (e *Engine) mapRegion(mt *types.Map, part string) string {
 	return "M." + e.elemKey(mt.Key()) + "." + e.elemKey(mt.Elem()) + "." + part
+}
+
+// nameVal gives the value of an SSA instruction a named SMT constant when its term is large, so that
+// terms stay small and shared (helps e-matching and keeps queries linear in the function size).
+func (fc *FnCtx) nameVal(v ssa.Value) {
+	val, ok := fc.vals[v]
+	if !ok {
+		return
+	}
+	var rec func(val Val, name string) Val
+	rec = func(val Val, name string) Val {
+		if val.Sort != "" {
+			if len(val.T) > 48 && strings.Contains(val.T, "(") {
+				c := qsym("v." + name)
+				if fc.declared[c] {
+					fc.nfresh++
+					c = qsym(fmt.Sprintf("v.%s!%d", name, fc.nfresh))
+				}
+				fc.declare(c, val.Sort)
+				fc.assume(eq(c, val.T))
+				val.T = c
+			}
+			return val
+		}
+		if val.Loc != nil {
+			l := *val.Loc
+			l.Idx = append([]string{}, val.Loc.Idx...)
+			for i, ix := range l.Idx {
+				if len(ix) > 48 && strings.Contains(ix, "(") {
+					c := qsym(fmt.Sprintf("v.%s.ix%d", name, i))
+					if fc.declared[c] {
+						fc.nfresh++
+						c = qsym(fmt.Sprintf("v.%s.ix%d!%d", name, i, fc.nfresh))
+					}
+					fc.declare(c, sInt)
+					fc.assume(eq(c, ix))
+					l.Idx[i] = c
+				}
+			}
+			val.Loc = &l
+			return val
+		}
+		for i := range val.Fields {
+			val.Fields[i] = rec(val.Fields[i], fmt.Sprintf("%s.%d", name, i))
+		}
+		return val
+	}
+	fc.vals[v] = rec(val, v.Name())
+}
+
+func (fc *FnCtx) installHeapNamer() {
+	if fc.regionSorts == nil {
+		fc.regionSorts = map[string]string{}
+	}
+	regionSortSink = fc.regionSorts
+	heapNamer = func(region, term string) string {
+		// sort of the region constant: find from an existing declaration of region@0 is not always possible;
+		// derive it from the term's shape instead.
+		sort := fc.sortOfRegionTerm(region)
+		if sort == "" {
+			return term
+		}
+		fc.nheap++
+		c := qsym(fmt.Sprintf("%s@s%d", region, fc.nheap))
+		fc.declare(c, sort)
+		fc.assume(eq(c, term))
+		return c
+	}
+}
+
+// sortOfRegionTerm: SMT sort of a heap region, from its naming convention and recorded cell sorts.
+func (fc *FnCtx) sortOfRegionTerm(region string) string {
+	if s, ok := fc.regionSorts[region]; ok {
+		return s
+	}
+	return ""
 }
